@@ -708,10 +708,24 @@ def first_match_to_next(stmts: list[ast.stmt]) -> list[ast.stmt]:
     (the first element passing the filter decides; D only when none does).  Function level: the loop is followed by the final return
     (or the end of the function, D = None)."""
     def conv(loop, default):
-        if not isinstance(loop, ast.For) or loop.orelse or len(loop.body) != 1:
+        if not isinstance(loop, ast.For) or loop.orelse or not loop.body:
             return None
+        # pure temporaries of the iteration (`op = h[n].op`) are written in
+        temps = {}
+        body = list(loop.body)
+        while len(body) > 1 and isinstance(body[0], ast.Assign) and len(body[0].targets) == 1 and isinstance(body[0].targets[0], ast.Name) \
+                and is_pure(body[0].value) and body[0].targets[0].id not in temps:
+            temps[body[0].targets[0].id] = _Subst(dict(temps)).visit(copy.deepcopy(body[0].value))
+            body = body[1:]
+        if len(body) != 1:
+            return None
+        if temps:
+            tn = {n.id for n in ast.walk(loop.target) if isinstance(n, ast.Name)}
+            if set(temps) & tn:
+                return None
+            body = [_Subst(dict(temps)).visit(copy.deepcopy(body[0]))]
         conds = []
-        st = loop.body[0]
+        st = body[0]
         while isinstance(st, ast.If) and not st.orelse and len(st.body) == 1:
             conds.append(st.test)
             st = st.body[0]
